@@ -272,8 +272,7 @@ const abortMarker = 500000000
 // id is recorded from the wire; every caller records (request, reply).
 // freshBurst: a FRESH connection whose very first RPCs are started at the same instant by 64 callers (spin barrier:
 // all of them are running when released). One unary call each.
-func freshBurst(round int) (ids []int64, pairs []string) {
-	const G = 64
+func freshBurst(round, G int, spin bool) (ids []int64, pairs []string) {
 	l := NewLink(true)
 	l.Auto = true
 	var mu sync.Mutex
@@ -290,6 +289,7 @@ func freshBurst(round int) (ids []int64, pairs []string) {
 	cc := goat.NewClientConn(l.C, "c1", "srv")
 	var ready, wg sync.WaitGroup
 	var goFlag atomic.Bool
+	release := make(chan struct{})
 	res := make([]string, G)
 	for g := 0; g < G; g++ {
 		ready.Add(1)
@@ -298,7 +298,11 @@ func freshBurst(round int) (ids []int64, pairs []string) {
 			defer wg.Done()
 			tok := int64(round*1000 + g*3 + 1)
 			ready.Done()
-			for !goFlag.Load() {
+			if spin {
+				for !goFlag.Load() {
+				}
+			} else {
+				<-release
 			}
 			cctx, cancel := context.WithTimeout(context.Background(), 5*time.Second) // not an oracle: keeps a lost reply from blocking the rig
 			defer cancel()
@@ -312,6 +316,7 @@ func freshBurst(round int) (ids []int64, pairs []string) {
 	}
 	ready.Wait()
 	goFlag.Store(true)
+	close(release)
 	wg.Wait()
 	scancel()
 	l.C.FailRead(io.EOF)
@@ -325,23 +330,33 @@ func freshBurst(round int) (ids []int64, pairs []string) {
 func TestC05Free(t *testing.T) {
 	em := NewEmitter()
 	defer em.Close()
-	rounds := 40
+	// (callers, GOMAXPROCS, spin barrier): spinning callers are all RUNNING when released (at most procs - 2 of them)
+	configs := [][3]int{{2, 16, 1}, {8, 16, 1}, {14, 16, 1}, {16, 4, 0}, {64, 16, 0}, {16, 16, 0}, {64, 4, 0}, {16, 1, 0}}
+	reps := 5
 	if thorough() {
-		rounds = 400
+		reps = 50
 	}
-	for round := 1; round <= rounds; round++ {
-		if !want(round) {
-			continue
+	round := 0
+	oldProcs := runtime.GOMAXPROCS(0)
+	for rep := 0; rep < reps; rep++ {
+		for _, cf := range configs {
+			round++
+			if !want(round) {
+				continue
+			}
+			em.Marker("begin", round)
+			runtime.GOMAXPROCS(cf[1])
+			ids, pairs := freshBurst(round, cf[0], cf[2] == 1)
+			runtime.GOMAXPROCS(oldProcs)
+			terms := make([]string, len(ids))
+			for i, v := range ids {
+				terms[i] = fmt.Sprint(v)
+			}
+			em.Emit(Rec{Idx: round, Kind: "c05-fresh-burst", Desc: map[string]any{"callers": cf[0], "procs": cf[1], "spin": cf[2] == 1, "ids": len(ids)},
+				Tags: []string{"fresh-connection-burst", fmt.Sprintf("callers=%d", cf[0]), fmt.Sprintf("procs=%d", cf[1])},
+				Coq: fmt.Sprintf("C05Free %d %s %s", cf[0], coqList(terms), coqList(pairs))})
+			em.Marker("end", round)
 		}
-		em.Marker("begin", round)
-		ids, pairs := freshBurst(round)
-		terms := make([]string, len(ids))
-		for i, v := range ids {
-			terms[i] = fmt.Sprint(v)
-		}
-		em.Emit(Rec{Idx: round, Kind: "c05-fresh-burst", Desc: map[string]any{"goroutines": 64, "ids": len(ids)},
-			Tags: []string{"fresh-connection-burst"}, Coq: fmt.Sprintf("C05Free 64 %s %s", coqList(terms), coqList(pairs))})
-		em.Marker("end", round)
 	}
 	if !want(0) {
 		return
